@@ -3,7 +3,7 @@
    Combines C18 (Keyboard = composition of the stages) with the frame decoder's reachable-state invariant,
    the whole-word sweep and the symbolic event-decoder result. *)
 From Coq Require Import NArith Bool List String.
-From PK Require Import Base.Outcome Base.Ctl Base.Finite Base.Machine Gen.All Impl Spec.Frame Spec.Compose
+From PK Require Import Base.Outcome Base.Ctl Base.Finite Base.Machine Base.Reach Gen.All Impl Spec.Frame Spec.Compose
   Syn.Ps2 Check.Ps2M Check.C08.
 From PK Require Props.C08 Props.C18.
 Import ListNotations.
@@ -21,7 +21,8 @@ Section AnyStages.
 
   (* the frame decoder's reachable-state invariant, kept abstract here (instantiated at the end) *)
   Variable sts : list Ps2Decoder.
-  Hypothesis Hinv : inv_closed (ps2_machine syn_ps2) (ps_eqb syn_ps2) all_ops sts (Ps2Decoder_mk 0 0) = true.
+  Hypothesis Hinit : In (Ps2Decoder_mk 0 0) sts.
+  Hypothesis Hstep : forall p op, In p sts -> exists p' o, m_step (ps2_machine syn_ps2) p op = Ret (p', o) /\ In p' sts.
   Definition good (k : Keyboard L S) : Prop := In (Keyboard_ps2_decoder k) sts.
 
   (* one operation, results dropped *)
@@ -39,11 +40,7 @@ Section AnyStages.
 
   Lemma frame_step : forall p op, In p sts ->
     exists p' o, m_step (ps2_machine syn_ps2) p op = Ret (p', o) /\ In p' sts.
-  Proof.
-    intros p op Hp.
-    exact (@inv_closed_step _ _ (ps2_machine syn_ps2) (ps_eqb syn_ps2) (ps_eqb_ok syn_ps2) all_ops sts (Ps2Decoder_mk 0 0)
-             Hinv p op Hp (all_ops_complete op)).
-  Qed.
+  Proof. exact Hstep. Qed.
 
   Theorem kb_step_total : forall k op, good k -> valid_op op -> exists k', kb_step k op = Ret k' /\ good k'.
   Proof.
@@ -84,7 +81,7 @@ Section AnyStages.
     intros s0 l0 hc0 ops Hops. rewrite Props.C18.C18_new. cbn.
     eexists. split; [reflexivity|].
     assert (G : good (Keyboard_mk (Ps2Decoder_mk 0 0) s0 (EventDecoder_mk hc0 (Modifiers_mk false false false false true false false false false) l0))).
-    { unfold good. cbn [Keyboard_ps2_decoder]. exact (@init_in _ _ (ps2_machine syn_ps2) (ps_eqb syn_ps2) (ps_eqb_ok syn_ps2) all_ops sts (Ps2Decoder_mk 0 0) Hinv). }
+    { unfold good. cbn [Keyboard_ps2_decoder]. exact Hinit. }
     revert G. generalize (Keyboard_mk (Ps2Decoder_mk 0 0) s0 (EventDecoder_mk hc0 (Modifiers_mk false false false false true false false false false) l0)).
     induction Hops as [|op ops Hv Hops IH]; intros k G; cbn [kb_run]; [eauto|].
     destruct (kb_step_total k op G Hv) as (k' & E & G'). rewrite E. exact (IH k' G').
@@ -98,6 +95,8 @@ Theorem C08_keyboard : forall L S (f : L -> KeyCode -> Modifiers -> HandleContro
   exists k0, Keyboard_new f adv s0 l0 hc0 = Ret k0 /\ exists k', kb_run f adv k0 ops = Ret k'.
 Proof.
   intros L S f adv Hf Hadv.
-  exact (C08_keyboard_gen f adv Hf Hadv (ps2_states syn_ps2 (Ps2Decoder_mk 0 0)) Props.C08.inv_bits).
+  destruct Props.C08.ps2_reach as (sts & Hinit & Hstep).
+  refine (C08_keyboard_gen f adv Hf Hadv sts Hinit _).
+  intros p op Hp. exact (Hstep p op Hp (all_ops_complete op)).
 Qed.
 Print Assumptions C08_keyboard.
